@@ -2,7 +2,8 @@
 From Coq Require Import List Ascii String Bool Arith Lia Permutation PrimFloat.
 From Verif Require Import Base.Result Base.Str Base.Sexp Base.PyDict Base.Float
   Model.Tokenizer Model.Types Model.NumExpr Model.Domain Model.Exec Model.DomainExporter Spec.Pddl
-  Proofs.C08_Defs Proofs.C08_Trees Proofs.C08_Pre Proofs.C08_Eff Proofs.C08_Tables Proofs.C08_Domain.
+  Proofs.C08_Defs Proofs.C08_Trees Proofs.C08_Pre Proofs.C08_Eff Proofs.C08_Tables Proofs.C08_Domain
+  Proofs.C08_Range Proofs.C08_RangeDom Proofs.C08_Perm Proofs.C08_Vocab.
 Import ListNotations.
 Open Scope string_scope.
 Open Scope list_scope.
@@ -18,6 +19,7 @@ Definition ex_num : numparser := fun s =>
   else if String.eqb s "0.125" then Some 0x1p-3%float
   else if String.eqb s "0.12" then Some 0x1.eb851eb851eb8p-4%float
   else if String.eqb s "0.1250" then Some 0x1p-3%float
+  else if String.eqb s "0.1200" then Some 0x1.eb851eb851eb8p-4%float
   else if String.eqb s "1" then Some 1%float
   else if String.eqb s "3" then Some 3%float
   else if String.eqb s "10" then Some 10%float
@@ -61,6 +63,81 @@ Proof. vm_compute. repeat split. Qed.
 Lemma ex_roundtrip : parse_domain ex_num (export_domain 2 4 ex_m) = Ok (rr_domain ex_num 2 4 ex_m).
 Proof. apply domain_roundtrip. exact ex_wf. Qed.
 
+(* ---------- from text to text: every parsed domain in PDDL section order ---------- *)
+Section FromText.
+  Variable num : numparser.
+  Variable dpre deff : nat.
+  Hypothesis Hnum : forall d, d = dpre \/ d = deff -> forall s x, num s = Some x -> num_ok num d x = true.
+  Hypothesis Hnum_cmp : forall c r x, num (String c r) = Some x -> str_in (String c EmptyString) comparison_ops = false.
+
+  Theorem parsed_roundtrip e m :
+    canonical e = true -> no_vac e = true -> parse_domain num e = Ok m ->
+    forallb (fun kp => not_dash (fst kp)) (d_types m) = true ->
+    forallb (fun ns => negb (str_in (fst ns) reserved_names)) (d_preds m) = true ->
+    (forall k, str_in k ("=" :: comparison_ops ++ assignment_ops) = true -> dget (d_funcs m) k = None) ->
+    parse_domain num (export_domain dpre deff m) = Ok (rr_domain num dpre deff m).
+  Proof.
+    intros Hc Hv Hp H1 H2 H3. apply domain_roundtrip.
+    apply (parse_domain_wf num dpre deff Hnum Hnum_cmp e m Hc Hv Hp H1 H2 H3).
+  Qed.
+End FromText.
+
+(* the hypotheses about float() hold for the example's table at 2 and 4 decimals, and the example text is in
+   canonical order, without empty quantifiers, with hygienic names *)
+Lemma ex_num_closed : forall d, d = 2 \/ d = 4 -> forall s x, ex_num s = Some x -> num_ok ex_num d x = true.
+Proof.
+  intros d Hd s x. unfold ex_num.
+  repeat match goal with |- (if ?c then _ else _) = _ -> _ => destruct c end;
+    intros H; try discriminate; injection H as <-; destruct Hd as [-> | ->]; vm_compute; reflexivity.
+Qed.
+
+Lemma ex_num_cmp : forall c r x, ex_num (String c r) = Some x -> str_in (String c EmptyString) comparison_ops = false.
+Proof.
+  intros c r x. unfold ex_num.
+  repeat match goal with |- (if ?b then _ else _) = _ -> _ => let E := fresh "E" in destruct b eqn:E end;
+    intros H; try discriminate;
+    match goal with E : String.eqb _ _ = true |- _ => apply String.eqb_eq in E; injection E as -> _; reflexivity end.
+Qed.
+
+Definition ex_sexp : sexp := match parse_string MStr ex_text with Ok e => e | Err _ => Atom "" end.
+
+Lemma ex_range_hyps :
+  canonical ex_sexp = true /\ no_vac ex_sexp = true /\ parse_domain ex_num ex_sexp = Ok ex_m /\
+  forallb (fun kp => not_dash (fst kp)) (d_types ex_m) = true /\
+  forallb (fun ns => negb (str_in (fst ns) reserved_names)) (d_preds ex_m) = true /\
+  forallb (fun k => match dget (d_funcs ex_m) k with None => true | Some _ => false end)
+          ("=" :: comparison_ops ++ assignment_ops) = true.
+Proof. vm_compute. repeat split. Qed.
+
+(* ---------- every set order ---------- *)
+Lemma set_orders_roundtrip (num : numparser) (dpre deff : nat) (m m1 : mdomain) :
+  wf_mdomain num dpre deff m = true -> perm_domain m m1 ->
+  wf_mdomain num dpre deff m1 = true /\
+  parse_domain num (export_domain dpre deff m1) = Ok (rr_domain num dpre deff m1).
+Proof.
+  intros Hwf Hp. pose proof (wf_mdomain_perm num dpre deff m m1 Hp Hwf) as H1.
+  exact (conj H1 (domain_roundtrip num dpre deff m1 H1)).
+Qed.
+
+Lemma vocabulary_same (num : numparser) (dpre deff : nat) (m : mdomain) :
+  Corr.Core.model_vocab (rr_domain num dpre deff m) = Corr.Core.model_vocab m /\
+  d_name (rr_domain num dpre deff m) = d_name m /\ d_reqs (rr_domain num dpre deff m) = d_reqs m.
+Proof. exact (conj (vocab_same num dpre deff m) (conj eq_refl eq_refl)). Qed.
+
+Lemma example_all :
+  ex_domain = Ok ex_m /\ wf_mdomain ex_num 2 4 ex_m = true /\
+  parse_domain ex_num (export_domain 2 4 ex_m) = Ok (rr_domain ex_num 2 4 ex_m).
+Proof. exact (conj ex_parsed (conj ex_wf ex_roundtrip)). Qed.
+
+Lemma range_example_all :
+  (forall d, d = 2 \/ d = 4 -> forall s x, ex_num s = Some x -> num_ok ex_num d x = true) /\
+  (forall c r x, ex_num (String c r) = Some x -> str_in (String c EmptyString) comparison_ops = false) /\
+  canonical ex_sexp = true /\ no_vac ex_sexp = true /\ parse_domain ex_num ex_sexp = Ok ex_m.
+Proof.
+  refine (conj ex_num_closed (conj ex_num_cmp _)).
+  destruct ex_range_hyps as (H1 & H2 & H3 & _). exact (conj H1 (conj H2 H3)).
+Qed.
+
 (* ---------- the unrestricted statement is false: finding D83 ---------- *)
 Definition d83_text : string :=
   "(define (domain dom) (:requirements :typing :universal-preconditions) (:types a - object)
@@ -92,3 +169,14 @@ Lemma d83_refutes :
   applicable_in d83_m "a2" ["o1"] [("o1", "a")] empty_state = Ok true /\
   applicable_in d83_m' "a2" ["o1"] [("o1", "a")] empty_state = Ok false.
 Proof. vm_compute. repeat split. Qed.
+
+Lemma refuted_all :
+  exists (text : string) (m m' : mdomain),
+    (do e <- parse_string MStr text; parse_domain no_num e) = Ok m /\
+    parse_domain no_num (export_domain 2 4 m) = Ok m' /\
+    applicable_in m "a1" ["o1"] [("o1", "a")] empty_state = Ok false /\
+    applicable_in m' "a1" ["o1"] [("o1", "a")] empty_state = Ok true /\
+    applicable_in m "a2" ["o1"] [("o1", "a")] empty_state = Ok true /\
+    applicable_in m' "a2" ["o1"] [("o1", "a")] empty_state = Ok false.
+Proof. exists d83_text, d83_m, d83_m'. exact d83_refutes. Qed.
+
